@@ -533,6 +533,50 @@ def reuse_design(kind, p):
     return dict(hw=hw, top=top, kind='reuse:' + kind, inputs=ins, outputs=outs, desc=dict(kind=kind, **p))
 
 
+def alias_local_design(order, w=4, top_is_system=False):
+    """one LOCAL wire t on two ports of the same child (Mul(t,t,·) inlined, Add(t,t,·) shared named module, And2(t,t,·)
+    inlined, user block Two(t,t,·) named module); `order` is the creation order of the children, 'drv' = the driver of t
+    (absent = t has no driver in the source design).  Every consumer output is a port of the module."""
+    import py4hw
+    L = py4hw
+    hw, top = fresh()
+
+    class Two(L.Logic):
+        def __init__(self, parent, name, x, y, r):
+            super().__init__(parent, name)
+            self.addIn('x', x)
+            self.addIn('y', y)
+            self.addOut('r', r)
+            L.Xor2(self, 'x2', x, y, r)
+    scope = top
+    a = hw.wire('a', w)
+    top.addIn('a', a)
+    t = scope.wire('t', w)
+    outs = {}
+    for k, kind in enumerate(order):
+        if kind == 'drv':
+            L.Not(scope, 'drv', a, t)
+            continue
+        o = hw.wire(f'o_{kind}', w)
+        top.addOut(f'o_{kind}', o)
+        outs[f'o_{kind}'] = o
+        if kind == 'mul':
+            L.Mul(scope, 'square', t, t, o)
+        elif kind == 'add':
+            L.Add(scope, 'double', t, t, o)
+        elif kind == 'and':
+            L.And2(scope, 'same', t, t, o)
+        elif kind == 'two':
+            Two(scope, 'two', t, t, o)
+        elif kind == 'buf':
+            L.Buf(scope, 'copy', t, o)          # ordinary single use of t
+        elif kind == 'add2':
+            L.Add(scope, 'plain', t, a, o)      # second Add of the same module name with distinct ports
+        else:
+            raise KeyError(kind)
+    return dict(hw=hw, top=top, kind='aliaslocal', inputs={'a': a}, outputs=outs, desc=dict(order=list(order), w=w))
+
+
 # ------------------------------------------------------------------------------------------------ hierarchies
 def hier_design(rng, depth=2, fan=3, wmax=8):
     """random nested hierarchy of user structural blocks (unique module per instance) whose leaves are library blocks
